@@ -48,7 +48,15 @@ type CallbackSpec struct {
 	GhostUpdates []GhostUpdate
 }
 
+// AfterCall: ghost statements executed right after the n-th call of a callee (results bound to $result, $result1...).
+type AfterCall struct {
+	Kind  string // ghost | assume | assert
+	Name  string // ghost variable (Kind ghost)
+	C     *Clause
+}
+
 type Contract struct {
+	After     map[string][]AfterCall // "pkg.Callee#n"
 	GhostVars []GhostVar
 	Hints     []SExpr // lemma instances re-instantiated in the current state before every obligation
 	Uses      []string
@@ -121,7 +129,7 @@ var clauseKeywords = map[string]bool{
 	"vfun": true, "requires": true, "ensures": true, "modifies": true, "loop": true, "foreach": true, "serves": true,
 	"trusted": true, "func": true, "fun": true, "pred": true, "lemma": true, "axiom": true, "mode": true,
 	"ghost": true, "inline": true, "pure": true, "bounded": true, "opaque": true,
-	"uses": true, "callback": true, "globalinv": true, "pattern": true, "hint": true, "footprint": true, "covers": true,
+	"uses": true, "callback": true, "globalinv": true, "pattern": true, "hint": true, "footprint": true, "covers": true, "after": true,
 }
 
 type rawLine struct {
@@ -198,6 +206,7 @@ var (
 	reLemma  = regexp.MustCompile(`^(lemma|axiom)\s+([A-Za-z_]\w*)\s*\(([^)]*)\)\s*(.*)$`)
 	reLoop   = regexp.MustCompile(`^(loop|foreach)\s+#?(\d+)\s+(invariant|decreases|unroll)\s*(.*)$`)
 	reFootprint = regexp.MustCompile(`^footprint\s+([A-Za-z_]\w*)\s*\(\s*(\w+)\s*\)\s*:=\s*(.*)$`)
+	reAfter = regexp.MustCompile(`^([\w.]+#\d+)\s+(ghost|assume|assert)\s+(.*)$`)
 	reLabel  = regexp.MustCompile(`^([A-Za-z_][\w\-]*):\s+(.*)$`)
 	reServes = regexp.MustCompile(`\s+serves((?:\s+C\d+)+)\s*`)
 )
@@ -519,6 +528,33 @@ func (ps *PkgSpec) parseLines(raw []rawLine) error {
 			}
 			ps.Funs["Footprint$"+m[1]] = &SpecFun{Pkg: ps.Pkg, Name: "Footprint$" + m[1], Params: []SBinder{{m[2], "*" + m[1]}}, Body: e, File: l.file, Line: l.line}
 			cur, curLemma = nil, nil
+		case "after":
+			if cur == nil {
+				return errf("after outside func")
+			}
+			m := reAfter.FindStringSubmatch(rest)
+			if m == nil {
+				return errf("bad after clause %q", rest)
+			}
+			ac := AfterCall{Kind: m[2]}
+			body := m[3]
+			if ac.Kind == "ghost" {
+				i := strings.Index(body, ":=")
+				if i < 0 {
+					return errf("bad ghost update %q", body)
+				}
+				ac.Name = strings.TrimSpace(body[:i])
+				body = strings.TrimSpace(body[i+2:])
+			}
+			c, err := ps.parseClause(body, l)
+			if err != nil {
+				return err
+			}
+			ac.C = c
+			if cur.After == nil {
+				cur.After = map[string][]AfterCall{}
+			}
+			cur.After[m[1]] = append(cur.After[m[1]], ac)
 		case "hint":
 			if cur == nil {
 				return errf("hint outside func")
